@@ -69,6 +69,7 @@ type Outcome struct {
 	TieOK       int            `json:"tie_ok"`
 	TieDriver   bool           `json:"tie_driver"`
 	WorkerError string         `json:"worker_error,omitempty"`
+	WallMs      int64          `json:"wall_ms"`
 	Resolved    Tamper         `json:"resolved"` // the tamper with its "auto" (A < 0) arguments resolved
 }
 
@@ -173,6 +174,7 @@ func handle(jobJSON []byte, driverBin string) []byte {
 		return b
 	}
 	c := j.Case
+	t0 := time.Now()
 	for attempt := 0; ; attempt++ {
 		o.Stats = map[string]int{}
 		o.V, o.TieV, o.Skipped = nil, nil, ""
@@ -184,6 +186,7 @@ func handle(jobJSON []byte, driverBin string) []byte {
 		rr := vlib.NewRng(c.P.TapeSeed + 77)
 		c.P = o4pair.RandomParams(rr, c.P.IAT, c.P.Biased)
 	}
+	o.WallMs = time.Since(t0).Milliseconds()
 	o.Case = c
 	if o.Resolved.Op != "" {
 		o.Case.T = o.Resolved
@@ -431,6 +434,7 @@ func (x *runner) runCase(c Case, o *Outcome) {
 	c.T = resolveTamper(c.T, len(w), len(frames))
 	o.Resolved = c.T
 	tw := applyTamper(c.T, w, frames, oldWire[c.Dir], oldWire[1-c.Dir])
+	acceptedForged := 0 // bytes of a peer-sealed frame the decoder legitimately accepts before the first frame that must fail
 	if c.T.Op == "peerpkt" {
 		// not an on-path attacker but the peer itself (it holds the link keys): a correctly
 		// sealed frame with a malformed / unusual packet in place of the burst's first frame,
@@ -441,6 +445,7 @@ func (x *runner) runCase(c Case, o *Outcome) {
 			return
 		}
 		tw = append(evil, w...)
+		acceptedForged = len(evil)
 	}
 	// first difference and the frame it falls into
 	fd := 0
@@ -502,7 +507,7 @@ func (x *runner) runCase(c Case, o *Outcome) {
 		o.V = &verdict{"delivered-past-damaged-frame", fmt.Sprintf("%s: after %s the first damaged frame is #%d (wire offset %d); intact data before it: %d bytes; delivered: %d bytes (error reported: %v)", dn, c.T.Op, dmg, fd, allowed, len(rd.Got), rd.Err)}
 	case blocked || rd.Err == nil:
 		o.V = &verdict{"no-error-reported", fmt.Sprintf("%s: after %s followed by EOF, Read reported no error (blocked=%v, delivered %d)", dn, c.T.Op, blocked, len(rd.Got))}
-	case o.Class == "altered" && dmg < len(frames) && len(tw)-frames[dmg].Start >= 2+1446 && o.ErrClass == "net:eof":
+	case o.Class == "altered" && dmg < len(frames) && len(tw)-frames[dmg].Start-acceptedForged >= 2+1446 && o.ErrClass == "net:eof":
 		// the damaged frame and at least a maximum-length frame of bytes after its length field
 		// were fed, yet only the EOF was reported: the damage itself went unnoticed
 		o.V = &verdict{"damage-unnoticed", fmt.Sprintf("%s: after %s (frame %d) with %d bytes fed from the damaged frame on, Read reported only EOF", dn, c.T.Op, dmg, len(tw)-frames[dmg].Start)}
@@ -631,6 +636,10 @@ func genRandom(rng *vlib.Rng, i int) Case {
 	iat := pickIAT(rng)
 	c := Case{Name: fmt.Sprintf("random-%d", i), P: o4pair.RandomParams(rng, iat, rng.Intn(4) == 0), Dir: rng.Intn(2)}
 	small := []int{0, 1, 2, 100, 1426, 1427, 1428, 1447, 1448, 1449, 2*1427 + 1, 5000}
+	if iat != 0 {
+		// IAT modes sleep up to 10 ms per Conn.Write: keep the bursts small
+		small = []int{0, 1, 2, 100, 1426, 1427, 1428, 1447, 1448, 1449}
+	}
 	for k := rng.Intn(3); k > 0; k-- {
 		c.Warm = append(c.Warm, []int{vlib.Pick(rng, small)})
 	}
@@ -658,6 +667,7 @@ func genRandom(rng *vlib.Rng, i int) Case {
 // ---------------------------------------------------------------- aggregation
 
 type agg struct {
+	maxMs    int64
 	r        *vlib.Run
 	pool     *o4pair.Pool
 	f2skips  int
@@ -678,7 +688,12 @@ func (a *agg) evaluate(cases []Case, origin string) []Outcome {
 	var outs []Outcome
 	for i, out := range a.pool.Run(jobs) {
 		var o Outcome
-		if err := json.Unmarshal(out, &o); err != nil || o.WorkerError != "" {
+		if err := json.Unmarshal(out, &o); err == nil && o.WorkerError == "timeout" {
+			// real IAT sleeps with a pathological length table: not a verdict about the property
+			a.r.Count("skipped", "case-abandoned-after-300s")
+			fmt.Fprintf(os.Stderr, "case %s abandoned after the job timeout\n", cases[i].Name)
+			continue
+		} else if err != nil || o.WorkerError != "" {
 			a.r.Violate("harness-worker-failed", "correspondence", fmt.Sprintf("[%s] worker: %v %s", cases[i].Name, err, o.WorkerError), cases[i])
 			continue
 		}
@@ -698,6 +713,13 @@ func familyOf(name string) string {
 }
 
 func (a *agg) record(o Outcome) {
+	if o.WallMs > a.maxMs {
+		a.maxMs = o.WallMs
+		a.r.Notes["slowest_case"] = fmt.Sprintf("%s: %d ms", o.Case.Name, o.WallMs)
+	}
+	if o.WallMs > 5000 {
+		fmt.Fprintf(os.Stderr, "slow case %s: %d ms\n", o.Case.Name, o.WallMs)
+	}
 	r, c := a.r, o.Case
 	for k := 0; k < o.F2Retries; k++ {
 		a.f2skips++
